@@ -37,7 +37,10 @@ def cases(shard, rabin):
                 chosen.append(lst[h % len(lst)])
                 chosen.append(lst[(h // 7 + 1) % len(lst)])
         else:
-            for q in (qs[h % 4], qs[(h // 4 + 1 + h % 4) % 4]):
+            forms = (qs[h % 4], qs[(h // 4 + 1 + h % 4) % 4])
+            if rabin:
+                forms = forms[:1]    # C03 crosses all forms with Rabin too
+            for q in forms:
                 lst = by_q[q]
                 chosen.append(lst[(h // 16) % len(lst)])
         seen = []
@@ -118,11 +121,19 @@ def run_one(case, sy, W, acc, rabin, pid):
         # signature for known finding F3: the environment is forced to
         # break its action from here (state in the reference CPre(empty))
         forced = cl.spec_part(s) in gm.cpre(set())
+        sig = dict(rabin=rabin, plus_one=gm.plus_one,
+                   env_forced_to_break_action=forced)
+        if rabin:
+            # signature of finding F13: the hold index names a persistence
+            # set whose cycle set, at the state's own iterate, does not
+            # contain the state (index picked in a later iterate)
+            stale = [_stale_hold(x, cl, sy, case) for x in blocked]
+            sig['all_blocked_have_stale_hold_index'] = all(stale)
+            if not all(stale):
+                s = blocked[stale.index(False)]
         acc.violation('blocked', case, detail=dict(
             vars=vars_, state=s, path=cl.path_to(s),
-            n_blocked=len(blocked)),
-            rabin=rabin, plus_one=gm.plus_one,
-            env_forced_to_break_action=forced)
+            n_blocked=len(blocked)), **sig)
     # 4. Moore independence
     if gm.moore:
         r = cl.check_moore_independent()
@@ -140,3 +151,19 @@ def run_one(case, sy, W, acc, rabin, pid):
     if mis is not None:
         acc.violation('model_trace_not_confirmed_by_impl', case,
                       detail=dict(vars=vars_, **mis))
+
+
+def _stale_hold(s, cl, sy, case):
+    """Is `_hold` at state `s` an index of a persistence set that the
+    library's own iterates do not associate with this state?"""
+    zk, yki, _ = sy.iterates
+    gm = sy.gm
+    sp = cl.spec_part(s)
+    hold = s[cl.nsv]
+    none = len(case['P'])
+    if hold == none or not 0 <= hold < none:
+        return False
+    for z, yi in zip(zk, yki):
+        if sp in gm.state_table(z):
+            return sp not in gm.state_table(yi[hold])
+    return False
